@@ -11,7 +11,6 @@ def cells : List Cell := [
   { name := "psd_tools.api.shape:Stroke.STROKE_STYLE_LINE_CAP_TYPES", kind := .classMutable, writtenAtRuntime := false, readObservably := true },
   { name := "psd_tools.api.shape:Stroke.STROKE_STYLE_LINE_JOIN_TYPES", kind := .classMutable, writtenAtRuntime := false, readObservably := true },
   { name := "psd_tools.composite.blend:BLEND_FUNC", kind := .moduleMutable, writtenAtRuntime := false, readObservably := true },
-  { name := "psd_tools.composite.vector:_UNSEEDED_NOISE", kind := .moduleObject, writtenAtRuntime := true, readObservably := true },
   { name := "psd_tools.psd.adjustments:ADJUSTMENT_TYPES", kind := .registry, writtenAtRuntime := false, readObservably := false },
   { name := "psd_tools.psd.descriptor:TYPES", kind := .registry, writtenAtRuntime := false, readObservably := true },
   { name := "psd_tools.psd.effects_layer:EffectsLayer.EFFECT_TYPES", kind := .classMutable, writtenAtRuntime := false, readObservably := true },
